@@ -81,6 +81,11 @@ class DriverGen:
             if field_kind(s, f) in "AC":
                 c.append("    case %d: return mh::show_bytes(v.%s());" % (k, f.name))
         c.append("    default: return \"ERRK\"; }")
+        c.append("  if(c.op == \"geta\") switch(c.k) {")
+        for k, f in enumerate(nf):
+            if field_kind(s, f) == "A":
+                c.append("    case %d: return mh::show_array(v.%s());" % (k, f.name))
+        c.append("    default: return \"ERRK\"; }")
         c.append("  if(c.op == \"setb\") switch(c.k) {")
         for k, f in enumerate(nf):
             kind = field_kind(s, f)
